@@ -209,6 +209,51 @@ _BLOCK_SPEC = {
 }
 
 
+def rule_zpivot_hadamard(ctx: Ctx) -> None:
+    """inverse.zpivot-h: in the pivot-finding block a generator that has only a Z on the pivot column gets a Hadamard there when it still
+    acts on a qubit to the right of the pivot — through its X part *or* its Z part.  The test therefore reads both halves of the row to the
+    right of the column (x_matrix[row, j+1:n] and z_matrix[row, j+1:n]); `table[row, j+1:n]` is the X half only (table = [X | Z]), and a
+    Z-type generator such as IZZ of a GHZ state is then left as it is."""
+    from .. import linear
+    repo = ctx.repo
+    m = repo.module(STABF)
+    fn = repo.anchor(STABF, "inverse_circuit")
+    ctx.touch(m, fn)
+    blk = [l for l in fn.body if isinstance(l, ast.For) and any((call_attr(c) or getattr(c.func, "id", "")) == "pauli_type_finder" for c in calls_in(l))]
+    if len(blk) != 1 or not isinstance(blk[0].target, ast.Name):
+        raise AnalysisError("inverse_circuit: the pivot-finding block was not found")
+    J = blk[0].target.id
+    ifs = [i for i in ast.walk(blk[0]) if isinstance(i, ast.If) and any(call_attr(c) == "append" and c.args and isinstance(c.args[0], ast.Tuple) and c.args[0].elts
+                                                                        and isinstance(c.args[0].elts[0], ast.Constant) and c.args[0].elts[0].value == "H" for c in calls_in(i))
+           and not any(isinstance(x, ast.If) and x is not i and any(call_attr(c) == "append" for c in calls_in(x)) for x in ast.walk(i))]
+    zif = [i for i in ifs if any(isinstance(x, ast.Subscript) and isinstance(x.slice, ast.Tuple) for x in ast.walk(i.test))]
+    if len(zif) != 1:
+        raise AnalysisError("inverse_circuit: the Hadamard test of the Z-pivot case was not found")
+    halves = set()
+    for sub in [x for x in ast.walk(zif[0].test) if isinstance(x, ast.Subscript) and isinstance(x.slice, ast.Tuple) and len(x.slice.elts) == 2]:
+        base = norm(sub.value).split(".")[-1]
+        sl = sub.slice.elts[1]
+        if not isinstance(sl, ast.Slice) or sl.lower is None:
+            continue
+        lo = linear.clean(linear.lin(sl.lower) or {"?": 1})
+        if base == "x_matrix" and lo == {J: 1, "": 1}:
+            halves.add("x")
+        elif base == "z_matrix" and lo == {J: 1, "": 1}:
+            halves.add("z")
+        elif base == "table":
+            if lo == {J: 1, "": 1}:
+                halves.add("x")
+            elif lo.get(J) == 1 and lo.get("", 0) == 1 and len(lo) == 3:
+                halves.add("z")       # n + j + 1
+    if halves >= {"x", "z"}:
+        ctx.ok("inverse.zpivot-h", m, zif[0].test, what="Z pivot: X and Z parts to the right of the column are both looked at")
+    else:
+        ctx.fail("inverse.zpivot-h", m, zif[0].test,
+                 f"inverse_circuit decides on the Hadamard of a Z pivot from `{short(zif[0].test, 70)}`, which looks at the {sorted(halves) or 'no'} part of the row only: a generator "
+                 f"with Z's (or X's) to the right of the pivot in the other half keeps them, and the synthesis does not reach +Z_i (GHZ3 as XXX, ZZI, IZZ keeps IZZ)",
+                 func="inverse_circuit", construct="inverse_circuit: Z-pivot Hadamard test reads one half of the row")
+
+
 def rule_canonical_first(ctx: Ctx) -> None:
     """inverse.canonical-first: the block-wise synthesis assumes the reduced echelon form that canonical_form establishes (one pivot per
     row, nothing below a pivot).  inverse_circuit therefore canonicalises its input *unconditionally* before the first block: the call is a
@@ -614,6 +659,7 @@ def run(ctx: Ctx) -> None:
     rule_pivot_found(ctx)
     rule_block_conditions(ctx)
     rule_canonical_first(ctx)
+    rule_zpivot_hadamard(ctx)
     from ..rules import echelon as _echelon
     _echelon.rule_elim_direction(ctx)
     tm = repo.module(TR)
@@ -663,6 +709,7 @@ def _edit_pauli_at(src: str) -> str:
 
 
 KNOCKOUTS = [
+    Knockout("z-pivot-hadamard-test-x-half-only", STABF, sub_once("            if np.any(tableau.x_matrix[pivot[0], j + 1 : n_qubits]) or np.any(\n                tableau.z_matrix[pivot[0], j + 1 : n_qubits]\n            ):", "            if np.any(tableau.table[pivot[0], j + 1 : n_qubits]):"), "inverse.zpivot-h", "one half"),
     Knockout("sign-pass-before-last-row-reduction", STABF, sub_once("    # Eliminate Zs\n    for j in range(n_qubits):\n        for k in range(j + 1, n_qubits):\n            if tableau.x_matrix[k, j] == 0 and tableau.z_matrix[k, j] == 1:\n                tableau = tab_row_sum(tableau, j, k)\n\n    # Eliminate phase\n    for i in np.nonzero(tableau.phase)[0]:\n        tableau = transform.x_gate(tableau, i)\n        circuit_list.append((\"X\", int(i)))\n", "    # Eliminate phase\n    for i in np.nonzero(tableau.phase)[0]:\n        tableau = transform.x_gate(tableau, i)\n        circuit_list.append((\"X\", int(i)))\n\n    # Eliminate Zs\n    for j in range(n_qubits):\n        for k in range(j + 1, n_qubits):\n            if tableau.x_matrix[k, j] == 0 and tableau.z_matrix[k, j] == 1:\n                tableau = tab_row_sum(tableau, j, k)\n"), "inverse.blocks", "after the sign pass"),
     Knockout("canonical-form-skipped-for-unit-diagonal", STABF, sub_once("    tableau = canonical_form(tableau)\n", "    if not np.all(np.diag(tableau.x_matrix) == 1):\n        tableau = canonical_form(tableau)\n"), "inverse.canonical-first", "conditional"),
     Knockout("cnot-block-helper-misses-y", STABF, _edit_pauli_at, "inverse.block-conditions", "CNOT block"),
